@@ -164,7 +164,7 @@ class quadtree(object):
 mulgrid_format_specification = {
     'header': [['type', '_convention', '_atmosphere_type',
                 'atmosphere_volume', 'atmosphere_connection', 
-                'unit_type', 'gdcx', 'gdcy', 'cntype',
+                '_unit_type', 'gdcx', 'gdcy', 'cntype',
                 'permeability_angle', '_block_order_int'],
                ['5s', '1d', '1d',
                 '10.2e', '10.2e',
@@ -619,6 +619,9 @@ class mulgrid(object):
         return self._unit_type
     def set_unit_type(self, unit_type):
         """Set unit type"""
+        # as read from file, the unit type is padded with blanks:
+        if unit_type.strip() == 'FEET': unit_type = 'FEET '
+        elif not unit_type.strip(): unit_type = ''
         self._unit_type = unit_type
         self.unit_scale = {'': 1.0, 'FEET ': 0.3048}[unit_type]
     unit_type = property(get_unit_type, set_unit_type)
